@@ -11,7 +11,8 @@ from .core import log
 class Case:
     """one explored case: either a driver request (`request`) or a pure implementation-vs-oracle result"""
 
-    def __init__(self, desc, oracle=None, classes=None, request=None, nontrivial=True, detail=None):
+    def __init__(self, desc, oracle=None, classes=None, request=None, nontrivial=True, detail=None, agree=True):
+        self.agree = agree
         self.desc = desc
         self.oracle = oracle or {}
         self.classes = classes or []
@@ -75,14 +76,14 @@ def run(spec, pid, tier, seed, replay=None):
     for c in cases:
         oracle = dict(c.oracle)
         classes = list(c.classes)
-        agree = True
+        agree = c.agree
         resp = None
         if c.request is not None:
             resp = responses.get(c.request["id"])
             if resp is None or "error" in resp:
                 driver_errors.append((c.desc, resp))
                 continue
-            agree = resp.get("agree", True)
+            agree = agree and resp.get("agree", True)
             for k, v in (resp.get("oracle_impl") or {}).items():
                 oracle["model:" + k] = v
             classes += resp.get("class", [])
